@@ -38,6 +38,7 @@ static void zero_copy_case(const Pattern &p) { hx::run_case("zero_copy/"+p.name,
     // moving / assigning zero-copy matrices: ownership follows the data (a moved-to matrix must not claim the user arrays, a matrix that receives a COPY owns that copy)
     { typedef hx::ACrs<scalar> MX; auto A=amgcl::adapter::zero_copy(n,ptr.data(),col.data(),val.data()); MX B(std::move(*A)); bool own_b=B.own_data; B.own_data=false; /* whatever the flag says, this harness must not let the matrix free the user's vectors */ hx::require("move construction from a zero-copy matrix: still aliases the user arrays and does not own them", (void*)B.ptr==(void*)ptr.data() && (void*)B.val==(void*)val.data() && !own_b && same_as(B,S));
       MX C; C=std::move(B); bool own_c=C.own_data; C.own_data=false; B.own_data = B.ptr ? B.own_data : false; hx::require("move assignment from a zero-copy matrix: aliases the user arrays, does not own them", (void*)C.ptr==(void*)ptr.data() && !own_c && same_as(C,S));
+      { MX E(S.n,S.m,S.ptr,S.col,S.val); MX &alias=E; E=alias; hx::require("self-assignment leaves a matrix unchanged (well-formed, same operator)", E.ptr && E.nrows==(size_t)S.n && (S.col.empty() || (E.col && E.val)) && same_as(E,S)); }
       auto Z=amgcl::adapter::zero_copy(n,ptr.data(),col.data(),val.data()); MX D(S.n,S.m,S.ptr,S.col,S.val); *Z=D; hx::require("copy assignment INTO a zero-copy matrix: the matrix owns the copy it allocated and no longer aliases the user arrays", Z->own_data && (void*)Z->ptr!=(void*)ptr.data() && (void*)Z->val!=(void*)val.data() && same_as(*Z,S)); }
     bool intact = ptr==ptr0 && col==col0; for (size_t k=0;k<val.size();++k) intact=intact&&hx::same_handle(val[k],val0[k]); hx::require("user arrays are intact after the zero-copy matrices are destroyed", intact); }); }
 struct RowBuilder { const SCrs &S; typedef scalar val_type; typedef ptrdiff_t col_type; size_t rows() const { return S.n; } size_t nonzeros() const { return S.col.size(); } void operator()(size_t i, std::vector<ptrdiff_t> &c, std::vector<scalar> &v) const { c.clear(); v.clear(); for (ptrdiff_t k=S.ptr[i];k<S.ptr[i+1];++k) { c.push_back(S.col[k]); v.push_back(S.val[k]); } } };
